@@ -36,8 +36,27 @@ mod verif_c08 {
         let len = text.len();
         let mut buf = InputBuffer::default();
         buf.original = text;
+        // fill_orig_b2c runs at the end of `build`, when the tables of the NORMALISED text are already filled: the table of
+        // the original must not depend on them.  Here: a normalised text of the same byte length but another character
+        // layout (all ASCII) with its tables, and stale junk in the table itself.
+        let same_len: bool = kani::any();
+        let mlen = if same_len { len } else { len + 1 };
+        for i in 0..mlen {
+            buf.modified.push('x');
+            buf.mod_b2c.push(i);
+            buf.mod_c2b.push(i);
+            buf.m2o.push(if i < len { i } else { len });
+        }
+        buf.mod_b2c.push(mlen);
+        buf.mod_c2b.push(mlen);
+        buf.m2o.push(len);
+        let junk: usize = kani::any();
+        buf.m2o_2.push(junk);
+        buf.m2o_2.push(junk);
         buf.fill_orig_b2c();
         assert!(buf.m2o_2.len() == len + 1);
+        kani::cover!(same_len, "normalised text of the same byte length as the original");
+        kani::cover!(!same_len, "normalised text of another byte length");
         let b: usize = kani::any();
         kani::assume(b <= len);
         let mut is_boundary = false;
